@@ -96,7 +96,8 @@ fn expected_rule(class: &str) -> Option<&'static [&'static str]> {
         "overall-statistic-mismatch" => &["solution statistic mismatch"],
         "load-above-capacity|regular-tour" => &["load exceeds capacity in tour"],
         "load-misreported|regular-tour" => &["load mismatch", "load exceeds capacity in tour"],
-        "break-misplaced" => &["cannot find break for tour"],
+        // (the break rule proper; in a single-stop tour no other rule looks at the break at all)
+        "break-misplaced" => &["cannot match all breaks", "break visit time", "cannot find break for tour"],
         // dropped-job: no single rule names it for every mutant (load / job count / arrival / task count), not listed
         _ => return None,
     })
@@ -106,7 +107,7 @@ const ALL_RULE_TEXTS: &[&str] = &[
     "job served in multiple tours", "job present as assigned and unassigned", "not all tasks served for", "cannot find job with id", "tour size limit violation",
     "max distance limit violation", "shift time limit violation", "does not follow strict rule", "has jobs assigned to another tour", "arrival time mismatch for",
     "distance mismatch for", "distance mismatch for tour statistic", "duration mismatch for tour statistic", "solution statistic mismatch", "load exceeds capacity in tour",
-    "load mismatch", "cannot find break for tour",
+    "load mismatch", "cannot find break for tour", "cannot match all breaks", "break visit time",
 ];
 
 struct Mutant {
